@@ -157,8 +157,22 @@ TRACESTATE_KEY = b"tracestate"
 
 
 def encode_metadata(metadata: dict[str, str]) -> pa.KeyValueMetadata:
-    """Encode a plain ``dict[str, str]`` to ``pa.KeyValueMetadata`` with bytes keys/values."""
-    return pa.KeyValueMetadata({k.encode(): v.encode() for k, v in metadata.items()})
+    """Encode a plain ``dict[str, str]`` to ``pa.KeyValueMetadata`` with bytes keys/values.
+
+    Values are always encodable: a character with no UTF-8 form (a lone
+    surrogate, e.g. from ``os.fsdecode`` of a non-UTF-8 file name quoted in an
+    exception message) is written as a backslash escape (``backslashreplace``)
+    instead of raising.  These values include log and error texts, and an
+    error that cannot be encoded must not take down the path that reports it.
+
+    Args:
+        metadata: String keys and values to encode.
+
+    Returns:
+        The encoded ``pa.KeyValueMetadata``.
+
+    """
+    return pa.KeyValueMetadata({k.encode(): v.encode(errors="backslashreplace") for k, v in metadata.items()})
 
 
 # ---------------------------------------------------------------------------
